@@ -8,12 +8,61 @@ use ripd::{
     CompactionCheckpointCumulativeV1Request, CompactionCutPointsV1Request, CompactionStatusV1Request, ContextSelectionStatusV1Request, ContinuityRunLink,
     ContinuityStore, ProviderCursorStatusV1Request, ToolSideEffects,
 };
-use rv::sched::{copy_dir, CrashRec};
+use rv::sched::CrashRec;
 use rv::*;
 use serde_json::json;
 use std::collections::{BTreeMap, HashMap};
 use std::path::{Path, PathBuf};
+use std::sync::atomic::{AtomicU64, Ordering};
 use std::sync::{Arc, Mutex};
+use std::time::Instant;
+
+// ------------------------------------------------------------------ wall-time accounting (printed at the end)
+static T_SNAP: AtomicU64 = AtomicU64::new(0);
+static T_COPY: AtomicU64 = AtomicU64::new(0);
+static T_READS: AtomicU64 = AtomicU64::new(0);
+static T_FOLLOW: AtomicU64 = AtomicU64::new(0);
+static T_ORACLE: AtomicU64 = AtomicU64::new(0);
+fn tick(c: &AtomicU64, t0: Instant) {
+    c.fetch_add(t0.elapsed().as_micros() as u64, Ordering::Relaxed);
+}
+
+// ------------------------------------------------------------------ copies of a store
+/// How a copy of a store is made.  `Full`: byte copy of everything (a crash-point snapshot that will be
+/// restarted and written to).  `ReadsAsFound` / `ReadsNoCaches`: a private tree for read-only capability
+/// calls: events.jsonl is HARD-LINKED (no read path may write the truth log; the caller checks its length
+/// afterwards), everything else is byte-copied (reads may rebuild caches in place); `ReadsNoCaches` leaves
+/// `data/continuity_streams/` out instead of copying and deleting it.
+#[derive(Clone, Copy, PartialEq)]
+enum CopyMode {
+    Full,
+    ReadsAsFound,
+    ReadsNoCaches,
+}
+fn copy_store(src: &Path, dst: &Path, mode: CopyMode) -> std::io::Result<()> {
+    fn walk(src: &Path, dst: &Path, rel: &Path, mode: CopyMode) -> std::io::Result<()> {
+        std::fs::create_dir_all(dst.join(rel))?;
+        for e in std::fs::read_dir(src.join(rel))? {
+            let e = e?;
+            let ft = e.file_type()?;
+            let r = rel.join(e.file_name());
+            if ft.is_dir() {
+                if mode == CopyMode::ReadsNoCaches && r == Path::new("data/continuity_streams") {
+                    continue;
+                }
+                walk(src, dst, &r, mode)?;
+            } else if ft.is_file() {
+                if mode != CopyMode::Full && r == Path::new("data/events.jsonl") {
+                    std::fs::hard_link(src.join(&r), dst.join(&r))?;
+                } else {
+                    std::fs::copy(src.join(&r), dst.join(&r))?;
+                }
+            }
+        }
+        Ok(())
+    }
+    walk(src, dst, Path::new(""), mode)
+}
 
 // ------------------------------------------------------------------ workload
 #[derive(Clone, Debug, PartialEq)]
@@ -30,8 +79,10 @@ enum Op {
     Checkpoint { t: usize },
     Branch { t: usize },
     Handoff { t: usize },
-    /// a session-stream frame written straight through EventLog::append (seq kept by the harness, as the run task does)
-    Sess { s: usize, len: u64 },
+    /// a session / task stream frame written straight through EventLog::append (seq kept by the harness, as the
+    /// run task and the task pumps do).  k = frame kind: 0 output_text_delta, 1 tool_stdout, 2 tool_stderr
+    /// (session streams), 3 tool_task_output_delta (a task stream: use a stream index of its own)
+    Sess { s: usize, len: u64, k: u8 },
     /// cache loss + public read: remove the thread's full sidecar, then replay_events (rebuild_best_effort)
     DropSideRead { t: usize },
 }
@@ -180,17 +231,23 @@ impl World {
                 self.threads.push(child);
                 Ok(())
             }
-            Op::Sess { s, len } => {
+            Op::Sess { s, len, k } => {
                 while self.sess_ids.len() <= *s {
                     self.sess_ids.push(uuid::Uuid::new_v4().to_string());
                     self.sess_seq.push(0);
                 }
                 let sid = self.sess_ids[*s].clone();
                 let seq = self.sess_seq[*s];
-                let mut ev = Event { id: uuid::Uuid::new_v4().to_string(), session_id: sid, timestamp_ms: 1_790_000_000_000, seq, kind: EventKind::OutputTextDelta { delta: String::new() } };
+                let kind = |text: String| match *k {
+                    1 => EventKind::ToolStdout { tool_id: "t1".into(), chunk: text },
+                    2 => EventKind::ToolStderr { tool_id: "t1".into(), chunk: text },
+                    3 => EventKind::ToolTaskOutputDelta { task_id: "task1".into(), stream: rip_kernel::ToolTaskStream::Stdout, chunk: text, artifacts: None },
+                    _ => EventKind::OutputTextDelta { delta: text },
+                };
+                let mut ev = Event { id: uuid::Uuid::new_v4().to_string(), session_id: sid, timestamp_ms: 1_790_000_000_000, seq, kind: kind(String::new()) };
                 if *len > 0 {
                     let base = serde_json::to_string(&ev).unwrap().len() as u64;
-                    ev.kind = EventKind::OutputTextDelta { delta: "y".repeat(len.saturating_sub(base) as usize) };
+                    ev.kind = kind("y".repeat(len.saturating_sub(base) as usize));
                 }
                 self.log.append(&ev).map_err(|e| e.to_string())?;
                 self.returned.push(ev.id.clone());
@@ -342,29 +399,42 @@ fn reads(root: &Path, threads: &[String]) -> serde_json::Value {
     }
     json!(out)
 }
-/// reads with the caches as found vs with `continuity_streams/` removed; both on private copies
-fn reads_differ(root: &Path, threads: &[String], scratch: &Path, tag: &str) -> Option<String> {
+/// reads with the caches as found vs with `continuity_streams/` removed.  The caches-removed side always runs
+/// on a private tree; the as-found side runs on a private tree too, or (in_place: the store is discarded
+/// afterwards) on `root` itself.  events.jsonl is shared by hard link: Err = a read path changed its length.
+fn reads_differ(root: &Path, threads: &[String], scratch: &Path, tag: &str, in_place: bool) -> Result<Option<String>, String> {
     let a = scratch.join(format!("{tag}-a"));
     let b = scratch.join(format!("{tag}-b"));
-    copy_dir(root, &a).unwrap();
-    copy_dir(root, &b).unwrap();
-    let _ = std::fs::remove_dir_all(data_dir(&b).join("continuity_streams"));
-    let ra = reads(&a, threads);
+    let len0 = truth_len(root);
+    let t0 = Instant::now();
+    if !in_place {
+        copy_store(root, &a, CopyMode::ReadsAsFound).unwrap();
+    }
+    copy_store(root, &b, CopyMode::ReadsNoCaches).unwrap();
+    tick(&T_COPY, t0);
+    let t0 = Instant::now();
+    let ra = reads(if in_place { root } else { &a }, threads);
     let rb = reads(&b, threads);
+    tick(&T_READS, t0);
+    let t0 = Instant::now();
     let _ = std::fs::remove_dir_all(&a);
     let _ = std::fs::remove_dir_all(&b);
+    tick(&T_COPY, t0);
+    if truth_len(root) != len0 {
+        return Err(format!("a read-only capability changed the length of events.jsonl ({len0} -> {})", truth_len(root)));
+    }
     if ra == rb {
-        return None;
+        return Ok(None);
     }
     // name the first differing read
     let (xa, xb) = (ra.as_array().unwrap(), rb.as_array().unwrap());
     for (i, (p, q)) in xa.iter().zip(xb.iter()).enumerate() {
         if p != q {
             let key = p.as_object().and_then(|o| o.keys().next().cloned()).unwrap_or_default();
-            return Some(format!("thread#{} {key}: as-found {} vs caches-removed {}", i / 6, trunc(&p.to_string()), trunc(&q.to_string())));
+            return Ok(Some(format!("thread#{} {key}: as-found {} vs caches-removed {}", i / 6, trunc(&p.to_string()), trunc(&q.to_string()))));
         }
     }
-    Some("reads differ".into())
+    Ok(Some("reads differ".into()))
 }
 /// Executable class of a "reads differ with caches as found vs removed" violation, computed from the files
 /// of thread `id` in `root` (names shared with the C04 harness):
@@ -410,7 +480,11 @@ fn classify_cache_state(root: &Path, id: &str, point: &str, default: &str) -> St
             None => {}
         }
     }
-    let index_window = ["cache.side.flushed", "cache.side.indexed", "cache.mr.flushed", "cache.mr.seek", "cache.mr.msgidx", "cache.mr.done", "cache.comp.flushed"];
+    // (a line of BufWriter capacity or more is on disk right after its single write: the window then opens at .body)
+    let index_window = [
+        "cache.side.body", "cache.side.nl", "cache.side.flushed", "cache.side.indexed", "cache.mr.body", "cache.mr.nl", "cache.mr.flushed", "cache.mr.seek", "cache.mr.msgidx",
+        "cache.mr.done", "cache.comp.body", "cache.comp.nl", "cache.comp.flushed",
+    ];
     if index_window.contains(&point) || point.starts_with("msgidx.") || point.starts_with("seekidx.") || point.starts_with("ordidx.") || point.starts_with("compidx.") {
         return "derived_index_wellformed_not_projection".into();
     }
@@ -486,6 +560,8 @@ fn point_code(name: &str) -> u64 {
         "cache.rebuild.body" => 62,
         "cache.rebuild.nl" => 63,
         "cache.rebuild.flushed" => 64,
+        // not a rip_verif point: the harness snapshots the store right after the capability call returned
+        "op.returned" => 99,
         _ => 0,
     }
 }
@@ -533,12 +609,22 @@ fn supported_by_model(_op: &Op) -> bool {
     true
 }
 
-fn followups(nthreads: usize, nsess: usize) -> Vec<Op> {
+/// Follow-up operations after the restart.  `bulk`: first BULK_FRAMES frames of BULK_LEN bytes on a new session
+/// stream (other streams' traffic, > 1 MiB), so that the crashed thread's last frame is far from the end of
+/// the log when the thread gets its first append.
+const BULK_LEN: u64 = 400_000;
+const BULK_FRAMES: usize = 3;
+fn followups(nthreads: usize, nsess: usize, bulk: bool) -> Vec<Op> {
     let mut v = vec![];
+    if bulk {
+        for _ in 0..BULK_FRAMES {
+            v.push(Op::Sess { s: nsess, len: BULK_LEN, k: 0 });
+        }
+    }
     for t in 0..nthreads {
         v.push(Op::Msg { t, len: 0 });
     }
-    v.push(Op::Sess { s: nsess, len: 0 });
+    v.push(Op::Sess { s: nsess, len: 0, k: 0 });
     v.push(Op::Ensure);
     v.push(Op::Msg { t: 0, len: 0 });
     v
@@ -554,24 +640,41 @@ fn truth_len(root: &Path) -> u64 {
     std::fs::metadata(truth_path(root)).map(|m| m.len()).unwrap_or(0)
 }
 
-fn run_workload(ops: &[Op], scratch: &Path, wl_json: serde_json::Value, with_model: bool, res: &mut RunResult) -> Vec<CaseOut> {
+/// `bulk`: every crash point is restarted a second time (from a second copy of the snapshot) with the
+/// bulk-traffic-first follow-ups.
+/// Workloads run on several threads (each with its own scratch tree); the crash recorder is one global hook
+/// that snapshots the store of the workload running on the CURRENT thread (points are only delivered to the
+/// thread that armed the recorder, i.e. the one executing the capability call).
+struct RecCtx {
+    root: PathBuf,
+    scratch: PathBuf,
+    snaps: Vec<Snap>,
+}
+thread_local! {
+    static REC: std::cell::RefCell<Option<RecCtx>> = const { std::cell::RefCell::new(None) };
+}
+fn install_recorder() {
+    CrashRec::install(move |name, k| {
+        CrashRec::arm(false);
+        REC.with(|c| {
+            if let Some(ctx) = c.borrow_mut().as_mut() {
+                let dir = ctx.scratch.join(format!("snap-{k}"));
+                let _ = std::fs::remove_dir_all(&dir);
+                let t0 = Instant::now();
+                copy_store(&ctx.root, &dir, CopyMode::Full).expect("snapshot copy");
+                tick(&T_SNAP, t0);
+                ctx.snaps.push(Snap { name, dir });
+            }
+        });
+        CrashRec::arm(true);
+    });
+}
+fn run_workload(ops: &[Op], scratch: &Path, wl_json: serde_json::Value, with_model: bool, bulk: bool, bumps: &mut Vec<String>) -> Vec<CaseOut> {
+    std::fs::create_dir_all(scratch).expect("scratch");
     let root = scratch.join("live");
     let _ = std::fs::remove_dir_all(&root);
     let mut w = World::open(&root, vec![], BTreeMap::new(), vec![]);
-    let snaps: Arc<Mutex<Vec<Snap>>> = Arc::new(Mutex::new(vec![]));
-    {
-        let snaps = snaps.clone();
-        let root = root.clone();
-        let scratch = scratch.to_path_buf();
-        CrashRec::install(move |name, k| {
-            CrashRec::arm(false);
-            let dir = scratch.join(format!("snap-{k}"));
-            let _ = std::fs::remove_dir_all(&dir);
-            copy_dir(&root, &dir).expect("snapshot copy");
-            snaps.lock().unwrap().push(Snap { name, dir });
-            CrashRec::arm(true);
-        });
-    }
+    REC.with(|c| *c.borrow_mut() = Some(RecCtx { root: root.clone(), scratch: scratch.to_path_buf(), snaps: vec![] }));
     let mut fids: HashMap<String, u64> = HashMap::new();
     let mut recs: Vec<OpRec> = vec![];
     let mut acked: Vec<String> = vec![]; // frame ids of ops that returned Ok
@@ -591,40 +694,66 @@ fn run_workload(ops: &[Op], scratch: &Path, wl_json: serde_json::Value, with_mod
             fids.insert(b.id.clone(), 4 * i as u64 + j as u64);
         }
         let rec = OpRec { op: op.clone(), ok: r.is_ok(), lens: frames.iter().map(|b| b.len).collect(), new_thread: threads_before as u64 };
-        res.bump(&format!("op={}", format!("{:?}", op).split(|c| c == ' ' || c == '{').next().unwrap_or("")));
+        bumps.push(format!("op={}", format!("{:?}", op).split(|c| c == ' ' || c == '{').next().unwrap_or("")));
         if !rec.ok {
-            res.bump("op-returned-err");
+            bumps.push("op-returned-err".into());
         }
         recs.push(rec);
         // analyse the crash points of this op (ids of its frames are known now)
-        let mine: Vec<Snap> = std::mem::take(&mut *snaps.lock().unwrap());
-        for s in mine {
-            // the snapshot is restarted AT THE PATH OF THE LIVE STORE (the workspace path is the key of
-            // index.json and of continuity_created frames): park the live tree, move the snapshot in
-            let parked = scratch.join("parked");
-            std::fs::rename(&root, &parked).expect("park live store");
-            std::fs::rename(&s.dir, &root).expect("move snapshot in");
-            let modelled = point_code(s.name) != 0;
-            let c = analyse(&s, &root, i, point_ordinal, &w, &recs, &acked, &fids, ops, scratch, &wl_json, with_model && modelled, threads_before);
-            if modelled {
-                point_ordinal += 1;
-            }
-            let _ = std::fs::remove_dir_all(&root);
-            std::fs::rename(&parked, &root).expect("unpark live store");
-            out.push(c);
+        let taken: Vec<Snap> = REC.with(|c| std::mem::take(&mut c.borrow_mut().as_mut().unwrap().snaps));
+        let mut mine: Vec<(Snap, usize)> = taken.into_iter().map(|s| (s, threads_before)).collect();
+        // one more crash point: right after the capability call returned (its acknowledgements count)
+        {
+            let dir = scratch.join("snap-ret");
+            let _ = std::fs::remove_dir_all(&dir);
+            let t0 = Instant::now();
+            copy_store(&root, &dir, CopyMode::Full).expect("snapshot copy");
+            tick(&T_SNAP, t0);
+            mine.push((Snap { name: "op.returned", dir }, w.threads.len()));
         }
+        let mut acked_now = acked.clone();
         if r.is_ok() {
-            acked.extend(frames.iter().map(|b| b.id.clone()));
+            acked_now.extend(frames.iter().map(|b| b.id.clone()));
             for id in &w.returned {
-                if !acked.contains(id) {
-                    acked.push(id.clone());
+                if !acked_now.contains(id) {
+                    acked_now.push(id.clone());
                 }
             }
         }
+        for (s, threads_acked) in mine {
+            // the snapshot is restarted AT THE PATH OF THE LIVE STORE (the workspace path is the key of
+            // index.json and of continuity_created frames): park the live tree, move the snapshot in
+            let parked = scratch.join("parked");
+            let second = scratch.join("snap-bulk");
+            std::fs::rename(&root, &parked).expect("park live store");
+            std::fs::rename(&s.dir, &root).expect("move snapshot in");
+            if bulk {
+                let t0 = Instant::now();
+                let _ = std::fs::remove_dir_all(&second);
+                copy_store(&root, &second, CopyMode::Full).expect("second snapshot copy");
+                tick(&T_SNAP, t0);
+            }
+            let modelled = point_code(s.name) != 0;
+            let acks = if s.name == "op.returned" { &acked_now } else { &acked };
+            let c = analyse(&s, &root, i, point_ordinal, &w, &recs, acks, &fids, ops, scratch, &wl_json, with_model && modelled, threads_acked, false);
+            out.push(c);
+            let _ = std::fs::remove_dir_all(&root);
+            if bulk {
+                std::fs::rename(&second, &root).expect("move second snapshot in");
+                let c = analyse(&s, &root, i, point_ordinal, &w, &recs, acks, &fids, ops, scratch, &wl_json, with_model && modelled, threads_acked, true);
+                out.push(c);
+                let _ = std::fs::remove_dir_all(&root);
+            }
+            if modelled {
+                point_ordinal += 1;
+            }
+            std::fs::rename(&parked, &root).expect("unpark live store");
+        }
+        acked = acked_now;
     }
-    CrashRec::uninstall();
+    REC.with(|c| *c.borrow_mut() = None);
     drop(w);
-    let _ = std::fs::remove_dir_all(&root);
+    let _ = std::fs::remove_dir_all(scratch);
     out
 }
 
@@ -643,6 +772,7 @@ fn analyse(
     wl_json: &serde_json::Value,
     with_model: bool,
     threads_acked: usize,
+    bulk: bool,
 ) -> CaseOut {
     let mut violations: Vec<(String, String)> = vec![];
     let threads0 = w.threads.clone();
@@ -684,7 +814,12 @@ fn analyse(
         violations.push((format!("after a crash at {} (op {op_index}) the log holds frame(s) naming {} artifact(s) that are not on disk (first {})", s.name, miss.len(), miss[0]), "frame_references_missing_artifact".into()));
     }
     // ---- reads on the recovered store before any further write
-    if let Some(d) = reads_differ(root, &threads0, scratch, "r0") {
+    // (the bulk variant restarts the same on-disk state: its first reads would repeat those of the plain variant)
+    let r0 = if bulk { Ok(None) } else { reads_differ(root, &threads0, scratch, "r0", false) };
+    if let Err(e) = &r0 {
+        violations.push((format!("after restart at {} (op {op_index}): {e}", s.name), "read_wrote_truth_log".into()));
+    }
+    if let Ok(Some(d)) = r0 {
         let stream: Vec<String> = d.strip_prefix("thread#").and_then(|r| r.split(' ').next()).and_then(|n| n.parse::<usize>().ok()).and_then(|i| threads0.get(i).cloned()).into_iter().collect();
         let class = match stream.first() {
             Some(id) => classify_cache_state(root, id, s.name, "reads_differ_after_restart"),
@@ -693,7 +828,8 @@ fn analyse(
         violations.push((format!("after restart at {} (op {op_index}): {d}", s.name), class));
     }
     // ---- restart + follow-up operations
-    let more = followups(nthreads0, w.sess_ids.len());
+    let more = followups(nthreads0, w.sess_ids.len(), bulk);
+    let t_follow = Instant::now();
     let mut w2 = World::open(root, threads0.clone(), w.last_msg.clone(), w.sess_ids.clone());
     let mut more_recs: Vec<OpRec> = vec![];
     let mut acked2: Vec<String> = acked.to_vec();
@@ -753,6 +889,8 @@ fn analyse(
     let threads1 = w2.threads.clone();
     let sess1 = w2.sess_ids.clone();
     drop(w2);
+    tick(&T_FOLLOW, t_follow);
+    let t_oracle = Instant::now();
     // ---- oracle on the final store
     let fresh = EventLog::new(truth_path(root)).expect("log");
     let lines = read_bodies(&truth_path(root));
@@ -797,14 +935,6 @@ fn analyse(
             violations.push((format!("acknowledged frame {} occurs {n} times after a crash at {} (op {op_index})", fids.get(id).cloned().unwrap_or(0), s.name), classify(&[], "acked_not_exactly_once")));
         }
     }
-    if let Some(d) = reads_differ(root, &threads1, scratch, "r1") {
-        let stream: Vec<String> = d.strip_prefix("thread#").and_then(|r| r.split(' ').next()).and_then(|n| n.parse::<usize>().ok()).and_then(|i| threads1.get(i).cloned()).into_iter().collect();
-        let class = match stream.first() {
-            Some(id) => classify_cache_state(root, id, s.name, "reads_differ_after_followups"),
-            None => "reads_differ_after_followups".into(),
-        };
-        violations.push((format!("after crash at {} (op {op_index}), restart and follow-ups: {d}", s.name), class));
-    }
     // ---- model case
     for r in &more_recs {
         obs.push(r.ok as u64);
@@ -814,6 +944,20 @@ fn analyse(
         enc_disk(&mut obs, root, &ids, threads1.len());
     }
     obs.push((replay.is_ok()) as u64);
+    tick(&T_ORACLE, t_oracle);
+    // ---- reads after the follow-ups (on private trees: the classifier below looks at the caches as the follow-ups left them)
+    let r1 = reads_differ(root, &threads1, scratch, "r1", false);
+    if let Err(e) = &r1 {
+        violations.push((format!("after crash at {} (op {op_index}), restart and follow-ups: {e}", s.name), "read_wrote_truth_log".into()));
+    }
+    if let Ok(Some(d)) = r1 {
+        let stream: Vec<String> = d.strip_prefix("thread#").and_then(|r| r.split(' ').next()).and_then(|n| n.parse::<usize>().ok()).and_then(|i| threads1.get(i).cloned()).into_iter().collect();
+        let class = match stream.first() {
+            Some(id) => classify_cache_state(root, id, s.name, "reads_differ_after_followups"),
+            None => "reads_differ_after_followups".into(),
+        };
+        violations.push((format!("after crash at {} (op {op_index}), restart and follow-ups: {d}", s.name), class));
+    }
     let modelled = with_model && ops.iter().all(supported_by_model);
     let _ = torn_at_snap;
     let hist: Vec<String> = recs.iter().map(|r| model_op(&r.op, &r.lens, r.new_thread).term).collect();
@@ -833,7 +977,7 @@ fn analyse(
     } else {
         String::new()
     };
-    let cj = json!({"workload": wl_json, "crash_op": op_index, "crash_point": s.name, "point_ordinal": point_ordinal,
+    let cj = json!({"workload": wl_json, "crash_op": op_index, "crash_point": s.name, "point_ordinal": point_ordinal, "bulk_first": bulk,
         "followups": more.iter().map(op_json).collect::<Vec<_>>(), "followup_ok": more_recs.iter().map(|r| r.ok).collect::<Vec<_>>(),
         "replay_validated_ok": replay.is_ok()});
     CaseOut { term, json: cj, violations, tag: format!("{}@{:?}", s.name, ops[op_index]).chars().take(60).collect() }
@@ -841,22 +985,33 @@ fn analyse(
 
 // ------------------------------------------------------------------ workloads
 fn thin_workload() -> Vec<Op> {
-    vec![Op::Ensure, Op::Msg { t: 0, len: 0 }, Op::Sess { s: 0, len: 0 }, Op::Msg { t: 0, len: 8192 }, Op::RunSpawned { t: 0 }, Op::Msg { t: 0, len: 100_000 }]
+    vec![
+        Op::Ensure,
+        Op::Msg { t: 0, len: 0 },
+        Op::Sess { s: 0, len: 0, k: 0 },
+        Op::Msg { t: 0, len: 8192 },
+        Op::RunSpawned { t: 0 },
+        // tool output chunks (session stream) and a task output delta (task stream): acknowledged when append returns
+        Op::Sess { s: 0, len: 0, k: 1 },
+        Op::Sess { s: 0, len: 300, k: 2 },
+        Op::Sess { s: 1, len: 0, k: 3 },
+        Op::Msg { t: 0, len: 100_000 },
+    ]
 }
 fn boundary_workload() -> Vec<Op> {
     vec![
         Op::Ensure,
         Op::Msg { t: 0, len: 8190 },
         Op::Msg { t: 0, len: 8191 },
-        Op::Sess { s: 0, len: 8191 },
+        Op::Sess { s: 0, len: 8191, k: 0 },
         Op::Msg { t: 0, len: 8192 },
         Op::Msg { t: 0, len: 8193 },
-        Op::Sess { s: 0, len: 8192 },
+        Op::Sess { s: 0, len: 8192, k: 1 },
         Op::Msg { t: 1, len: 0 },
         Op::RunEnded { t: 0 },
         Op::Cursor { t: 0 },
         Op::SideFx { t: 0 },
-        Op::Sess { s: 1, len: 100_000 },
+        Op::Sess { s: 1, len: 100_000, k: 3 },
         Op::Msg { t: 0, len: 0 },
     ]
 }
@@ -883,7 +1038,7 @@ fn corpus_workloads() -> Vec<Vec<Op>> {
                 "Checkpoint" => Op::Checkpoint { t },
                 "Branch" => Op::Branch { t },
                 "Handoff" => Op::Handoff { t },
-                "Sess" => Op::Sess { s, len },
+                "Sess" => Op::Sess { s, len, k: o["k"].as_u64().unwrap_or(0) as u8 },
                 "DropSideRead" => Op::DropSideRead { t },
                 _ => continue,
             });
@@ -910,6 +1065,8 @@ fn rich_workload() -> Vec<Op> {
         Op::Msg { t: 2, len: 300 },
     ]
 }
+const N_MODEL_QUICK: usize = 3;
+const N_RICH_QUICK: usize = 2;
 fn gen_workload(r: &mut Rng, n: usize, rich: bool) -> Vec<Op> {
     let mut ops = vec![Op::Ensure];
     let mut nthreads = 1usize;
@@ -923,7 +1080,10 @@ fn gen_workload(r: &mut Rng, n: usize, rich: bool) -> Vec<Op> {
             5 => Op::RunEnded { t },
             6 => Op::Cursor { t },
             7 => Op::SideFx { t },
-            8 | 9 => Op::Sess { s: r.below(2) as usize, len: *r.pick(&lens) },
+            8 | 9 => {
+                let s = r.below(3) as usize;
+                Op::Sess { s, len: *r.pick(&lens), k: if s == 2 { 3 } else { r.below(3) as u8 } }
+            }
             10 => {
                 if r.chance(1, 3) {
                     Op::Msg { t: nthreads + 3, len: 0 }
@@ -954,28 +1114,59 @@ fn main() {
     let scratch = Scratch::new("c05");
     let mut w = CaseWriter::new(&a.out, "Model.Crash", "check_case", "model_obs", 60);
     let mut distinct = Distinct::default();
+    // (workload, second restart of every crash point with bulk traffic first).  quick: the corpus and the thin
+    // workload get the second restart; thorough: every workload does
+    let th = a.thorough();
     let mut workloads: Vec<(Vec<Op>, bool)> = corpus_workloads().into_iter().map(|w| (w, true)).collect();
     workloads.push((thin_workload(), true));
-    workloads.push((boundary_workload(), true));
-    workloads.push((rich_workload(), true));
+    workloads.push((boundary_workload(), th));
+    workloads.push((rich_workload(), th));
     let mut r = Rng::new(a.seed);
-    let (n_model, n_rich) = if a.thorough() { (24, 16) } else { (3, 2) };
+    let (n_model, n_rich) = if th { (24, 16) } else { (N_MODEL_QUICK, N_RICH_QUICK) };
     for _ in 0..n_model {
         let n = r.range(8, 16) as usize;
-        workloads.push((gen_workload(&mut r, n, false), true));
+        workloads.push((gen_workload(&mut r, n, false), th));
     }
     for _ in 0..n_rich {
         let n = r.range(10, 18) as usize;
-        workloads.push((gen_workload(&mut r, n, true), true));
+        workloads.push((gen_workload(&mut r, n, true), th));
     }
-    for (wi, (ops, with_model)) in workloads.iter().enumerate() {
-        let wl_json = json!({"index": wi, "ops": ops.iter().map(op_json).collect::<Vec<_>>()});
-        let cases = run_workload(ops, scratch.path(), wl_json.clone(), *with_model && !a.oracle_only(), &mut res);
+    // run the workloads on a few threads, collect in workload order
+    install_recorder();
+    let nworkers = std::thread::available_parallelism().map(|n| n.get()).unwrap_or(4).clamp(2, 8).min(workloads.len().max(1));
+    let next = std::sync::atomic::AtomicUsize::new(0);
+    type Done = (Vec<CaseOut>, Vec<String>);
+    let done: Vec<Mutex<Option<Done>>> = workloads.iter().map(|_| Mutex::new(None)).collect();
+    let with_model = !a.oracle_only();
+    std::thread::scope(|sc| {
+        for _ in 0..nworkers {
+            sc.spawn(|| loop {
+                let wi = next.fetch_add(1, Ordering::SeqCst);
+                if wi >= workloads.len() {
+                    break;
+                }
+                let (ops, bulk) = &workloads[wi];
+                let wl_json = json!({"index": wi, "ops": ops.iter().map(op_json).collect::<Vec<_>>()});
+                let mut bumps = vec![];
+                let cases = run_workload(ops, &scratch.path().join(format!("w{wi}")), wl_json, with_model, *bulk, &mut bumps);
+                *done[wi].lock().unwrap() = Some((cases, bumps));
+            });
+        }
+    });
+    CrashRec::uninstall();
+    for (wi, slot) in done.iter().enumerate() {
+        let (cases, bumps) = slot.lock().unwrap().take().expect("workload result");
+        for b in bumps {
+            res.bump(&b);
+        }
         for c in cases {
             res.evaluations += 1;
             res.oracle_checks += 8;
             res.bump(&format!("point={}", c.json["crash_point"].as_str().unwrap_or("")));
-            distinct.add(&format!("{wi}/{}", c.json["point_ordinal"]));
+            distinct.add(&format!("{wi}/{}/{}", c.json["point_ordinal"], c.json["bulk_first"]));
+            if c.json["bulk_first"] == json!(true) {
+                res.bump("restart-with-bulk-traffic-first");
+            }
             let mut case_id: i64 = -1;
             if !c.term.is_empty() {
                 let id = w.push(c.term.clone());
@@ -1005,6 +1196,8 @@ fn main() {
     res.case_files = w.files.iter().map(|p| p.display().to_string()).collect();
     res.write(&a.out);
     println!("c05: {} crash points, {} oracle violations", res.evaluations, res.oracle_violations.len());
+    let ms = |c: &AtomicU64| c.load(Ordering::Relaxed) / 1000;
+    println!("c05 wall (ms): snapshots {} copies-for-reads {} reads {} follow-ups {} oracle {}", ms(&T_SNAP), ms(&T_COPY), ms(&T_READS), ms(&T_FOLLOW), ms(&T_ORACLE));
     for v in res.oracle_violations.iter().take(12) {
         println!("  [{}] {}", v.class, v.what);
     }
